@@ -1695,6 +1695,49 @@ CLEANUP:
 	return qB;
 }
 
+/* a basis is well formed for the problem if every status byte is one of the
+ * documented codes (at-upper rows only for ranged rows) and exactly nrows
+ * variables are basic; returns zero iff that is the case */
+static int check_basis_arrays (
+	EGLPNUM_TYPENAME_ILLlpdata * qslp,
+	const char *cstat,
+	const char *rstat)
+{
+	int i, nbas = 0;
+
+	for (i = 0; i < qslp->nstruct; i++)
+	{
+		switch (cstat[i])
+		{
+		case QS_COL_BSTAT_BASIC:
+			nbas++;
+		case QS_COL_BSTAT_LOWER:
+		case QS_COL_BSTAT_UPPER:
+		case QS_COL_BSTAT_FREE:
+			break;
+		default:
+			return 1;
+		}
+	}
+	for (i = 0; i < qslp->nrows; i++)
+	{
+		switch (rstat[i])
+		{
+		case QS_ROW_BSTAT_BASIC:
+			nbas++;
+		case QS_ROW_BSTAT_LOWER:
+			break;
+		case QS_ROW_BSTAT_UPPER:
+			if (qslp->sense == 0 || qslp->sense[i] != 'R')
+				return 1;
+			break;
+		default:
+			return 1;
+		}
+	}
+	return nbas != qslp->nrows;
+}
+
 EGLPNUM_TYPENAME_QSLIB_INTERFACE int EGLPNUM_TYPENAME_QSload_basis (
 	EGLPNUM_TYPENAME_QSdata * p,
 	QSbasis * B)
@@ -1707,6 +1750,13 @@ EGLPNUM_TYPENAME_QSLIB_INTERFACE int EGLPNUM_TYPENAME_QSload_basis (
 	if (B->nstruct != p->qslp->nstruct || B->nrows != p->qslp->nrows)
 	{
 		QSlog("size of basis does not match lp");
+		rval = 1;
+		goto CLEANUP;
+	}
+
+	if (check_basis_arrays (p->qslp, B->cstat, B->rstat))
+	{
+		QSlog("basis is not valid for this lp");
 		rval = 1;
 		goto CLEANUP;
 	}
@@ -1783,6 +1833,13 @@ EGLPNUM_TYPENAME_QSLIB_INTERFACE int EGLPNUM_TYPENAME_QSload_basis_array (
 	if (qslp->nrows > 0 && rstat == 0)
 	{
 		QSlog("EGLPNUM_TYPENAME_QSload_basis_array called without rstat");
+		rval = 1;
+		goto CLEANUP;
+	}
+
+	if (check_basis_arrays (qslp, cstat, rstat))
+	{
+		QSlog("basis is not valid for this lp");
 		rval = 1;
 		goto CLEANUP;
 	}
